@@ -6,13 +6,17 @@ Containers of symbolic length with opaque cube predicates (value, is_zero, impli
          (nothing is added afterwards).
   C14.A  | keeps every cube of both operands; & forms every pairwise product (a product may be
          skipped only on the path where it is the zero cube).
-  C14.S  simplification: drops exactly the cubes that are zero, sorts and deduplicates, then keeps a
-         cube iff it implies no *other* cube of the list (receiver = candidate, argument = other).
+  C14.S  simplification: on every *realisable* valuation of the opaque predicates (implication reflexive,
+         transitive, never towards a cube that sorts later) the kept cubes are exactly the non-zero cubes
+         that imply no other cube of the list.
+  C14.R  real cubes over a two-variable window (window mode): |, & and ! preserve the meaning and return an
+         irredundant cover on every canonical choice of operand cubes (sort / dedup / absorption run on the
+         cubes' own order and predicates).
   C14.N  complement: starts from the constant one and, for every cube, ANDs the sum of the
          complemented literals (positive literal -> inverted variable, negative -> plain).
   C14.L  Lut -> Sop emits exactly the minterms of the true assignments (n <= 3, every abstract path).
-Not decided: that absorption preserves the function (lemma c implies o => c | o = o), sort/dedup
-themselves (std), irredundancy beyond "simplification ran last".
+Not decided: irredundancy and meaning beyond the window sizes of C14.R for arbitrary numbers of cubes (there the
+argument is C14.M + C14.S + the absorption lemma c implies o => c | o = o).
 """
 import itertools
 
@@ -236,136 +240,16 @@ def run(chk):
 
 
 def real_window(chk, facts, C):
-    """| and & (first by-reference or by-value form found per signature) on operands whose cubes are *real* symbolic
-    cubes over a window of two variables (one atom per literal bit, canonical cubes only): the abstract summary
-    (paths x result cubes as bit functions) is evaluated on every canonical operand choice and must
-      - denote the OR / AND of the operands on the 4 assignments,
-      - contain no contradictory cube, no duplicate, no cube implying another.
-    The elements' own Ord / PartialEq / implies / products run in the interpreter (sort and dedup are modelled
-    semantically: std::sort is a stable sort by the element order, dedup_by removes an element when the closure
-    holds for it and the last kept one)."""
-    import itertools as _it
-    adt = facts.adts[C.elem]
-    fts = [f["ty"] for f in adt["variants"][0]["fields"]]
-    if not (len(fts) == 2 and all(t_["k"] == "uint" for t_ in fts)):
-        chk.undecided("C14.R", "real-cube window", "cube representation is not two masks")
-        return
-    WN = 2
-
-    def mk_cube(nm):
-        fs = []
-        for k, t_ in enumerate(fts):
-            fs.append(W(t_["w"], bits=[B.atom("%s.f%d[%d]" % (nm, k, i_)) if i_ < WN else ZERO for i_ in range(t_["w"])]))
-        return Agg("adt", C.elem, 0, fs)
-
-    def canon_pc(names):
-        pc = []
-        for nm in names:
-            for i_ in range(WN):
-                pc.append(W(1, bits=[B.bnot(B.band(B.atom("%s.f0[%d]" % (nm, i_)), B.atom("%s.f1[%d]" % (nm, i_))))]))
-        return tuple(pc)
-
-    def cube_val(c, m):
-        pos, neg = c
-        return (pos & ~m) == 0 and (neg & m) == 0 and (pos & neg) == 0
-
-    for trait, opname, shapes in (("std::ops::BitOr", "or", ((1, 1), (2, 1), (1, 2), (2, 2), (0, 3))), ("std::ops::BitAnd", "and", ((1, 1), (2, 1), (1, 2), (2, 2)))):
-        forms = [(bd, "<%s as %s>::%s" % (sty["s"], tr["s"], bd["name"])) for bd, sty, tr in facts.trait_impl_methods(trait) if (sty["t"] if sty["k"] == "ref" else sty).get("path") == SOP]
-        # the forms forward to one another; the one taking two references is analysed (all of them in the thorough tier)
-        refs = [f for f in forms if all(t_["k"] == "ref" for t_ in f[0]["sig"]["inputs"])]
-        todo = forms if chk.tier == "thorough" else (refs[:1] or forms[:1])
-        for bd, label in todo:
-            for La, Lb in shapes:
-                key = "%s on real cubes (%d,%d) window of %d variables" % (label, La, Lb, WN)
-                try:
-                    it = Interp(facts, max_paths=20000, max_steps=80000000)
-                    it.prune = True
-                    it.cmp_split = True
-                    it.split_all = True
-                    st = State()
-                    na, nb_ = ["p%d" % j for j in range(La)], ["q%d" % j for j in range(Lb)]
-
-                    def cont(names):
-                        cell = new_cell()
-                        st.mem[cell] = Arr([mk_cube(x) for x in names])
-                        f = [None, None]
-                        f[C.nv] = wconst(64, WN)
-                        f[C.cv] = Ptr(cell, (), (0, len(names)), "vec")
-                        return Agg("adt", C.adt, 0, f)
-                    A, Bv = cont(na), cont(nb_)
-                    names = na + nb_
-                    atoms = ["%s.f%d[%d]" % (nm, k, i_) for nm in names for k in range(2) for i_ in range(WN)]
-                    it.space = Space(atoms, canon_pc(names))
-                    with it.space:
-                        outs = it.call_body(bd, [arg_for(bd["sig"]["inputs"][0], A, st), arg_for(bd["sig"]["inputs"][1], Bv, st)], st, {}, pc=canon_pc(names))
-                    owner = {}
-                    for idx_, o in enumerate(outs):
-                        m_ = it.space.pc_mask(o.pc)
-                        if m_ is None:
-                            raise Undecided("path condition with top")
-                        while m_:
-                            low = m_ & -m_
-                            owner.setdefault(low.bit_length() - 1, []).append(idx_)
-                            m_ ^= low
-                    v, d = PROVED, ""
-                    ncases = 0
-                    # canonical operand choices: per cube and variable one of (absent, positive, negative)
-                    for lits in _it.product((0, 1, 2), repeat=len(names) * WN):
-                        named = {}
-                        cubes_in = []
-                        for j, nm in enumerate(names):
-                            pos = neg = 0
-                            for i_ in range(WN):
-                                l_ = lits[j * WN + i_]
-                                pos |= (l_ == 1) << i_
-                                neg |= (l_ == 2) << i_
-                            cubes_in.append((pos, neg))
-                            for i_ in range(WN):
-                                named["%s.f0[%d]" % (nm, i_)] = (pos >> i_) & 1
-                                named["%s.f1[%d]" % (nm, i_)] = (neg >> i_) & 1
-                        asg = {B.ATOMS.get(k_): v_ for k_, v_ in named.items()}
-                        r_ = it.space.index(named)
-                        enabled = [outs[x_] for x_ in owner.get(r_, [])]
-                        desc = "a = %s, b = %s (cubes as (pos, neg) masks)" % (cubes_in[:La], cubes_in[La:])
-                        if len(enabled) != 1:
-                            v, d = UNDECIDED, "%d paths enabled for %s" % (len(enabled), desc)
-                            break
-                        o = enabled[0]
-                        if o.kind != "return":
-                            v, d = REFUTED, "panics (%s) for %s" % (o.info.get("msg"), desc)
-                            break
-                        res = []
-                        for c in C.cubes(it, o.state, o.value):
-                            ev = eval_value(c if not isinstance(c, Ptr) else it.read_ptr(o.state, c), asg)
-                            if ev is None:
-                                raise Undecided("result cube with top")
-                            res.append(tuple(ev[2]))
-                        ncases += 1
-                        fa = [any(cube_val(c, m) for c in cubes_in[:La]) for m in range(1 << WN)]
-                        fb = [any(cube_val(c, m) for c in cubes_in[La:]) for m in range(1 << WN)]
-                        want = [(x or y) if opname == "or" else (x and y) for x, y in zip(fa, fb)]
-                        got = [any(cube_val(c, m) for c in res) for m in range(1 << WN)]
-                        if got != want:
-                            m = [k_ for k_ in range(1 << WN) if got[k_] != want[k_]][0]
-                            v, d = REFUTED, "%s: result %s is %d on assignment %d, a %s b is %d" % (desc, res, got[m], m, "|" if opname == "or" else "&", want[m])
-                            break
-                        bad = None
-                        for x_, cx in enumerate(res):
-                            if cx[0] & cx[1]:
-                                bad = "contains the contradictory cube %s" % (cx,)
-                            for y_, cy in enumerate(res):
-                                if x_ < y_ and cx == cy:
-                                    bad = "contains the cube %s twice" % (cx,)
-                                elif x_ != y_ and cx != cy and (cx[0] | cy[0]) == cx[0] and (cx[1] | cy[1]) == cx[1]:
-                                    bad = "keeps the cube %s although it implies %s" % (cx, cy)
-                        if bad:
-                            v, d = REFUTED, "%s: result %s %s" % (desc, res, bad)
-                            break
-                    if v == PROVED and ncases != 3 ** (len(names) * WN):
-                        v, d = UNDECIDED, "only %d cases" % ncases
-                except Undecided as ex:
-                    v, d = UNDECIDED, ex.cause
-                chk.add("C14.R", key, v, d, where=where_of(bd), sample=dict(obligation=key, cases=ncases if v == PROVED else None, verdict=v))
+    """C14.R: |, & and ! on Sops of real cubes over a two-variable window (analysis/window.py): meaning preserved and
+    the result irredundant, on every canonical choice of operand cubes."""
+    from ..window import window_op, op_forms, pick_forms
+    plan = (("std::ops::BitOr", "or", ((1, 1), (2, 1), (1, 2), (2, 2), (0, 3))),
+            ("std::ops::BitAnd", "and", ((1, 1), (2, 1), (1, 2), (2, 2))),
+            ("std::ops::Not", "not", ((0,), (1,), (2,), (3,))))
+    for trait, opname, shapes in plan:
+        for bd, label in pick_forms(op_forms(facts, trait, SOP), chk.tier):
+            for lens in shapes:
+                window_op(chk, "C14.R", facts, C, bd, label, lens, "or", opname, WN=2, irredundant=True, sample=(lens in ((2, 1), (2,))))
 
 
 def complement_rule(chk, facts, C, cm):
